@@ -334,11 +334,13 @@ def isolation(ctx, drv, K):
             before = snapshot_dir(user_home)
             os.environ['GNUPGHOME'] = user_home
             # (1) isolated env without the signer's key: the user's key must not count
-            env = go.IsolatedGPGEnvironment()
-            try:
-                impl = gpg_verify_case(ctx, drv, env, signed, f'isolated-empty/user-home={content}', True)
-            finally:
-                env.close()
+            for proxy in (None, 'http://127.0.0.1:9'):
+                # (a proxy setting only adds to the environment of the gpg processes: the private home stays in force)
+                env = go.IsolatedGPGEnvironment(proxy=proxy)
+                try:
+                    impl = gpg_verify_case(ctx, drv, env, signed, f'isolated-empty/user-home={content}/proxy={proxy}', True)
+                finally:
+                    env.close()
             # (2) isolated env with the signer's key: accepted whatever the user's home holds
             env = key_env(K['VALID_PUBLIC_KEY'], None)
             try:
